@@ -22,7 +22,12 @@ pub enum Src {
 }
 
 pub fn is_iter_chain(e: &Expr) -> bool {
-    parse_src(e).is_some()
+    if parse_src(e).is_some() {
+        return true;
+    }
+    // anything that textually goes through an iterator adaptor is NOT an Option receiver
+    let t = ts_str(e);
+    t.contains(".iter()") || t.contains(".iter_mut()") || t.contains(".zip(") || t.contains(".windows(") || t.contains(".into_iter()") || t.contains(".enumerate()")
 }
 
 fn strip_paren(e: &Expr) -> &Expr {
@@ -43,7 +48,21 @@ pub fn parse_src(e: &Expr) -> Option<Src> {
                 ("iter_mut", 0) => Some(Src::IterMut((*mc.receiver).clone())),
                 ("copied", 0) | ("cloned", 0) => Some(Src::Copied(Box::new(parse_src(&mc.receiver)?))),
                 ("enumerate", 0) => Some(Src::Enumerate(Box::new(parse_src(&mc.receiver)?))),
-                ("zip", 1) => Some(Src::Zip(Box::new(parse_src(&mc.receiver)?), Box::new(parse_src(&mc.args[0])?))),
+                ("zip", 1) => {
+                    let a = parse_src(&mc.receiver)?;
+                    let arg = strip_paren(&mc.args[0]);
+                    let b = match parse_src(arg) {
+                        Some(b) => b,
+                        None => match arg {
+                            // IntoIterator for &Vec / &mut Vec / Vec (by value: items are copied out)
+                            Expr::Reference(r) if r.mutability.is_none() => Src::Iter((*r.expr).clone()),
+                            Expr::Reference(r) => Src::IterMut((*r.expr).clone()),
+                            Expr::Path(_) | Expr::Field(_) => Src::Copied(Box::new(Src::Iter(arg.clone()))),
+                            _ => return None,
+                        },
+                    };
+                    Some(Src::Zip(Box::new(a), Box::new(b)))
+                }
                 ("skip", 1) => Some(Src::Skip(Box::new(parse_src(&mc.receiver)?), mc.args[0].clone())),
                 ("windows", 1) => {
                     if ts_str(&mc.args[0]) == "2" {
@@ -68,8 +87,18 @@ pub fn parse_src(e: &Expr) -> Option<Src> {
 }
 
 /// for-loop sources additionally accept `&R` and `&mut R`
-fn parse_for_src(e: &Expr) -> Option<Src> {
+fn parse_for_src(rw: &Rw, e: &Expr) -> Option<Src> {
     let e = strip_paren(e);
+    // configured slice getters: `for p in x.getter()` iterates the returned slice
+    if let Expr::MethodCall(mc) = e {
+        if mc.args.is_empty() {
+            if let Some(list) = rw.opts.extra.get("slice_getters") {
+                if list.split(',').any(|g| mc.method == g.trim()) {
+                    return Some(Src::Iter(e.clone()));
+                }
+            }
+        }
+    }
     if let Some(s) = parse_src(e) {
         return Some(s);
     }
@@ -207,7 +236,12 @@ fn closure_apply(rw: &mut Rw, s: &Src, cl: &syn::ExprClosure, idx: &syn::Ident, 
     Ok(body)
 }
 
-fn marker(rw: &mut Rw, op: &str, s: &Src) -> (Stmt, usize) {
+fn after_marker(key: &str) -> Stmt {
+    let k = syn::LitStr::new(&format!("after {}", key), Span::call_site());
+    parse_quote!(vx_at!(#k);)
+}
+
+fn marker(rw: &mut Rw, op: &str, s: &Src) -> (Stmt, usize, Stmt) {
     let n = rw.next(&format!("iter:{}", op));
     let key = format!("iter:{}#{}", op, n);
     let lt = len_text(s);
@@ -217,7 +251,8 @@ fn marker(rw: &mut Rw, op: &str, s: &Src) -> (Stmt, usize) {
     let v = rw.next("iter:var");
     let ivs = if matches_windows(s) { format!("w:__i{}", v) } else { format!("__i{}", v) };
     let iv = syn::LitStr::new(&ivs, Span::call_site());
-    (parse_quote!(vx_loop!(#k, #l, #iv);), v)
+    rw.events.push(format!("after {}", key));
+    (parse_quote!(vx_loop!(#k, #l, #iv);), v, after_marker(&key))
 }
 
 fn matches_windows(s: &Src) -> bool {
@@ -260,7 +295,7 @@ pub fn desugar(rw: &mut Rw, e: &Expr) -> Option<Expr> {
                         _ => return None,
                     };
                     let s = parse_src(&mc.receiver)?;
-                    let (mk, v) = marker(rw, &m, &s);
+                    let (mk, v, amk) = marker(rw, &m, &s);
                     let idx = format_ident!("__i{}", v);
                     let r = format_ident!("__r{}", v);
                     let mut cs = vec![];
@@ -286,6 +321,7 @@ pub fn desugar(rw: &mut Rw, e: &Expr) -> Option<Expr> {
                                 if !(#body) { #r = false; break; }
                                 #idx = #idx + 1;
                             }
+                            #amk
                             #r
                         }),
                         "any" => parse_quote!({
@@ -297,6 +333,7 @@ pub fn desugar(rw: &mut Rw, e: &Expr) -> Option<Expr> {
                                 if #body { #r = true; break; }
                                 #idx = #idx + 1;
                             }
+                            #amk
                             #r
                         }),
                         _ => parse_quote!({
@@ -308,6 +345,7 @@ pub fn desugar(rw: &mut Rw, e: &Expr) -> Option<Expr> {
                                 if #body { #r = Some(#idx); break; }
                                 #idx = #idx + 1;
                             }
+                            #amk
                             #r
                         }),
                     };
@@ -315,7 +353,7 @@ pub fn desugar(rw: &mut Rw, e: &Expr) -> Option<Expr> {
                 }
                 "sum" if mc.args.is_empty() => {
                     let s = parse_src(&mc.receiver)?;
-                    let (mk, v) = marker(rw, "sum", &s);
+                    let (mk, v, amk) = marker(rw, "sum", &s);
                     let idx = format_ident!("__i{}", v);
                     let acc = format_ident!("__acc{}", v);
                     let mut cs = vec![];
@@ -344,6 +382,7 @@ pub fn desugar(rw: &mut Rw, e: &Expr) -> Option<Expr> {
                             #acc = #acc + (#val);
                             #idx = #idx + 1;
                         }
+                        #amk
                         #acc
                     }))
                 }
@@ -357,7 +396,7 @@ pub fn desugar(rw: &mut Rw, e: &Expr) -> Option<Expr> {
                     }
                     let s = parse_src(&mc.receiver)?;
                     let init = mc.args[0].clone();
-                    let (mk, v) = marker(rw, "fold", &s);
+                    let (mk, v, amk) = marker(rw, "fold", &s);
                     let idx = format_ident!("__i{}", v);
                     let acc = format_ident!("__acc{}", v);
                     let mut cs = vec![];
@@ -383,6 +422,7 @@ pub fn desugar(rw: &mut Rw, e: &Expr) -> Option<Expr> {
                             #acc = #body;
                             #idx = #idx + 1;
                         }
+                        #amk
                         #acc
                     }))
                 }
@@ -391,7 +431,7 @@ pub fn desugar(rw: &mut Rw, e: &Expr) -> Option<Expr> {
                     if !matches!(s, Src::Map(..)) {
                         return None;
                     }
-                    let (mk, v) = marker(rw, "collect", &s);
+                    let (mk, v, amk) = marker(rw, "collect", &s);
                     let idx = format_ident!("__i{}", v);
                     let acc = format_ident!("__v{}", v);
                     let mut cs = vec![];
@@ -406,8 +446,12 @@ pub fn desugar(rw: &mut Rw, e: &Expr) -> Option<Expr> {
                         }
                     };
                     rw.fire("R-ITER.collect");
+                    let decl: Stmt = match rw.opts.extra.get("collect_elem").and_then(|t| syn::parse_str::<syn::Type>(t).ok()) {
+                        Some(t) => parse_quote!(let mut #acc: Vec<#t> = Vec::new();),
+                        None => parse_quote!(let mut #acc = Vec::new();),
+                    };
                     Some(parse_quote!({
-                        let mut #acc = Vec::new();
+                        #decl
                         let mut #idx: usize = 0;
                         while #cond {
                             #mk
@@ -415,6 +459,7 @@ pub fn desugar(rw: &mut Rw, e: &Expr) -> Option<Expr> {
                             #acc.push(#val);
                             #idx = #idx + 1;
                         }
+                        #amk
                         #acc
                     }))
                 }
@@ -424,7 +469,7 @@ pub fn desugar(rw: &mut Rw, e: &Expr) -> Option<Expr> {
                         _ => return None,
                     };
                     let s = parse_src(&mc.receiver)?;
-                    let (mk, v) = marker(rw, "for_each", &s);
+                    let (mk, v, amk) = marker(rw, "for_each", &s);
                     let idx = format_ident!("__i{}", v);
                     let mut cs = vec![];
                     conds(&s, &idx, &mut cs);
@@ -446,13 +491,14 @@ pub fn desugar(rw: &mut Rw, e: &Expr) -> Option<Expr> {
                             #body;
                             #idx = #idx + 1;
                         }
+                    #amk
                     }))
                 }
                 _ => None,
             }
         }
         Expr::ForLoop(fl) => {
-            let s = parse_for_src(&fl.expr)?;
+            let s = parse_for_src(rw, &fl.expr)?;
             // body must not `continue` (the index increment would be skipped)
             let mut hc = HasContinue(false);
             let mut b = fl.body.clone();
@@ -494,10 +540,13 @@ pub fn desugar(rw: &mut Rw, e: &Expr) -> Option<Expr> {
             bind(&fl.pat, &val, &mut binds);
             let start: Expr = start_of(&s).unwrap_or_else(|| parse_quote!(0));
             rw.fire("R-ITER.for");
+            let bk = syn::LitStr::new(&format!("body {}", key), Span::call_site());
+            rw.events.push(format!("body {}", key));
             Some(parse_quote!({
                 let mut #idx: usize = #start;
                 while #cond {
                     #mk
+                    vx_at!(#bk);
                     #(#binds)*
                     #(#body_stmts)*
                     #idx = #idx + 1;
